@@ -127,6 +127,34 @@ def rand_arrays(rng):
     return out
 
 
+def rand_scalars(rng):
+    """floats outside of tables: +-inf, NaN and finite values as python floats and numpy floats, also nested in a list / dict"""
+    pool = [float("-inf"), float("inf"), float("nan"), np.float64("-inf"), np.float64("inf"), np.float64("nan"), -2.5, np.float64(1e-20), 0.1 + 0.2]
+    out = {"s_%d" % i: rng.choice(pool) for i in range(rng.randint(1, 4))}
+    if rng.random() < 0.5:
+        out["s_list"] = [rng.choice(pool) for _ in range(rng.randint(0, 3))]
+    if rng.random() < 0.5:
+        out["s_dict"] = {"k%d" % i: rng.choice(pool) for i in range(rng.randint(1, 3))}
+    return out
+
+
+def add_groups(rng, net):
+    """1-2 groups with 2-3 element types each and mixed reference columns: net.group gets duplicate index labels"""
+    from pandapower.create import create_group
+    net.line["name"] = ["ln %d" % i for i in range(len(net.line))]
+    net.load["name"] = ["ld %d" % i for i in range(len(net.load))]
+    for g in range(rng.randint(1, 2)):
+        ets = rng.sample([t for t in ("bus", "line", "load", "trafo") if len(net[t])], rng.randint(2, 3))
+        elements, refs = [], []
+        for et in ets:
+            idx = rng.sample(list(net[et].index), rng.randint(1, min(3, len(net[et]))))
+            if et in ("line", "load") and rng.random() < 0.6:
+                elements.append([net[et].name.at[i] for i in idx]); refs.append("name")
+            else:
+                elements.append([int(i) for i in idx]); refs.append(None)
+        create_group(net, ets, elements, name=rng.choice(["grp", "12", ""]) + str(g), reference_columns=refs)
+
+
 def make_net(ctx, rng, allow_sub=False):
     net = nets.rand_net(rng, nb=rng.randint(4, 8), chords=rng.randint(0, 2), n_trafo=rng.randint(0, 2), shuffle_index=rng.random() < 0.6,
                         n_trafo3w=rng.choice([0, 0, 1]), oos=0.15)
@@ -148,13 +176,21 @@ def make_net(ctx, rng, allow_sub=False):
         # array / tuple attributes of every dtype class, empty and non-empty (objects are serialised attribute by attribute)
         for name, arr in rand_arrays(rng).items():
             setattr(c, name, arr)
+        for name, v in rand_scalars(rng).items():              # +-inf / NaN scalars as attributes
+            setattr(c, name, v)
         Characteristic(net, [0.0, 1.0, 2.5], [1.0, 3.0, 2.0])
         SplineCharacteristic(net, [0.0, 1.0, 2.5, 4.0], [1.0, 3.0, 2.0, 5.0], interpolator_kind="Pchip")
     if rng.random() < 0.5:
         for name, arr in rand_arrays(rng).items():           # net-level entries
             net["user_" + name] = arr
+    if rng.random() < 0.5:
+        sc = rand_scalars(rng)
+        net["user_scalars"] = sc                              # a dict entry
+        net["user_scalar"] = sc["s_0"]
+    if rng.random() < 0.6:
+        add_groups(rng, net)
     if rng.random() < 0.4:
-        pp.create_std_type(net, {"r_ohm_per_km": 0.1 + rng.random(), "x_ohm_per_km": 0.3, "c_nf_per_km": 10.0, "max_i_ka": 0.5, "note": rng.choice(STRS)}, rng.choice(["my type", "12", ""]), "line")
+        pp.create_std_type(net, {"r_ohm_per_km": 0.1 + rng.random(), "x_ohm_per_km": 0.3, "c_nf_per_km": 10.0, "max_i_ka": rng.choice([0.5, float("inf")]), "lim": rng.choice([float("-inf"), float("nan"), -1.5, np.float64("-inf")]), "note": rng.choice(STRS)}, rng.choice(["my type", "12", ""]), "line")
     return net, tab, cols, has_sub
 
 
@@ -191,7 +227,8 @@ def val_equal(a, b):
     if isinstance(a, dict) or isinstance(b, dict):
         return isinstance(a, dict) and isinstance(b, dict) and list(a.keys()) == list(b.keys()) and all(val_equal(a[k], b[k]) for k in a)
     if isinstance(a, (float, np.floating)) and isinstance(b, (float, np.floating)):
-        return bool(abs(a - b) <= 1e-14 * max(1.0, abs(a)) or (a != a and b != b))
+        # outside of tables floats are written with repr: exact, sign of infinity included
+        return type(a) is type(b) and bool(a == b or (a != a and b != b))
     if isinstance(a, pd.DataFrame):
         return isinstance(b, pd.DataFrame) and a.equals(b)
     if missing(a) or missing(b):
@@ -295,8 +332,8 @@ def deep_compare(a, b, tol_abs, strict_dtype=True, only_elements=False):
         elif not only_elements and isinstance(va, (np.ndarray, tuple)):
             if k not in b or not seq_equal(va, b[k]):
                 out.append((k, "npbool:net entry" if (k in b and is_npbool_defect(va, b[k])) else "net entry", "%r (%s) vs %r (%s)" % (va, getattr(va, "dtype", type(va).__name__), b.get(k), getattr(b.get(k), "dtype", type(b.get(k)).__name__))))
-        elif not only_elements and k in ("std_types", "user_pf_options", "name", "f_hz", "sn_mva"):
-            if va != b.get(k):
+        elif not only_elements and (k in ("std_types", "user_pf_options", "name", "f_hz", "sn_mva") or k.startswith("user_")):
+            if not val_equal(va, b.get(k)):
                 out.append((k, "value", "%r vs %r" % (str(va)[:80], str(b.get(k))[:80])))
     return out
 
@@ -328,7 +365,12 @@ def classify(diffs, src_net, fmt):
             return w.startswith("value:") and a.startswith("'") and float(a.strip("'")) == float(b)
         except ValueError:
             return False
-    if fmt == "excel" and diffs and all(is_numstr(w, d) for _, w, d in diffs):
+    def is_group_list_as_str(t, w, d):
+        a, _, b = d.partition(" vs ")
+        return t == "group" and w == "value:element_index" and a.startswith("[") and b.strip("'\"") == a
+    if fmt == "excel" and diffs and all(is_numstr(w, d) or is_group_list_as_str(t, w, d) for t, w, d in diffs):
+        if any(is_group_list_as_str(t, w, d) for t, w, d in diffs):
+            return "C20-excel-group-element-index-as-string"
         return "C20-excel-numeric-looking-strings"
 
     def is_inf(w, d):
@@ -369,6 +411,17 @@ def run(ctx):
                 ctx.count("load_raises")
             else:
                 diffs = deep_compare(net, n2, 1e-14)
+                if len(net.group):
+                    from pandapower.groups import group_element_index
+                    ctx.count("nets_with_groups")
+                    for gi in sorted(set(net.group.index)):
+                        for et in net.group.loc[[gi], "element_type"]:
+                            try:
+                                ia, ib = list(group_element_index(net, gi, et)), list(group_element_index(n2, gi, et))
+                            except Exception as e:
+                                ia, ib = "ok", "%s: %s" % (type(e).__name__, str(e)[:80])
+                            if ia != ib:
+                                diffs.append(("group", "group_element_index(%s, %s)" % (gi, et), "%s vs %s" % (ia, ib)))
                 if diffs:
                     ctx.violation(classify(diffs, net, "json"), "JSON string round trip differs: %s" % diffs[:4], case)
                 elif not res_equal(copy.deepcopy(net), n2):
@@ -389,33 +442,43 @@ def run(ctx):
             if has_sub:
                 continue
             k = it % 6
-            try:
-                if k == 0:
-                    p = os.path.join(tmp, "n%d.json" % it); pp.to_json(net, p); n3 = pp.from_json(p); fmt = "json-file"
-                elif k == 1:
-                    n3 = pp.from_json_string(pp.to_json(net, encryption_key="key %d" % it), encryption_key="key %d" % it); fmt = "json-encrypted"
-                elif k in (2, 3):
-                    p = os.path.join(tmp, "n%d.p" % it); pp.to_pickle(net, p); n3 = pp.from_pickle(p); fmt = "pickle"
-                elif k == 4 and it % 12 == 4:
-                    p = os.path.join(tmp, "n%d.xlsx" % it); pp.to_excel(net, p); n3 = pp.from_excel(p); fmt = "excel"
-                elif k == 5 and it % 12 == 11:
-                    p = os.path.join(tmp, "n%d.db" % it); pp.to_sqlite(net, p); n3 = pp.from_sqlite(p); fmt = "sqlite"
-                else:
+            # Excel / SQLite cannot restore groups (recorded finding): those paths are run with the groups and, so that the
+            # rest of the net is still compared, once more without them
+            variants = [net]
+            if k in (4, 5) and len(net.group):
+                wo = copy.deepcopy(net); wo["group"] = wo.group.iloc[0:0]
+                variants.append(wo)
+            for vi, net in enumerate(variants):
+                try:
+                    if k == 0:
+                        p = os.path.join(tmp, "n%d.json" % it); pp.to_json(net, p); n3 = pp.from_json(p); fmt = "json-file"
+                    elif k == 1:
+                        n3 = pp.from_json_string(pp.to_json(net, encryption_key="key %d" % it), encryption_key="key %d" % it); fmt = "json-encrypted"
+                    elif k in (2, 3):
+                        p = os.path.join(tmp, "n%d.p" % it); pp.to_pickle(net, p); n3 = pp.from_pickle(p); fmt = "pickle"
+                    elif k == 4 and it % 12 == 4:
+                        p = os.path.join(tmp, "n%d_%d.xlsx" % (it, vi)); pp.to_excel(net, p); n3 = pp.from_excel(p); fmt = "excel"
+                    elif k == 5 and it % 12 == 11:
+                        p = os.path.join(tmp, "n%d_%d.db" % (it, vi)); pp.to_sqlite(net, p); n3 = pp.from_sqlite(p); fmt = "sqlite"
+                    else:
+                        break
+                except Exception as e:
+                    kind_ = "spec"
+                    if k == 5 and len(net.group) and type(e).__name__ == "ProgrammingError" and "type 'list' is not supported" in str(e):
+                        kind_ = "C20-sqlite-groups-unsupported"           # recorded: to_sqlite cannot store the list cells of net.group
+                    ctx.violation(kind_, "%s round trip raises %s: %s" % (("excel" if k == 4 else "sqlite" if k == 5 else "json/pickle"), type(e).__name__, str(e)[:120]), case)
                     continue
-            except Exception as e:
-                ctx.violation("spec", "%s round trip raises %s: %s" % (("excel" if k == 4 else "sqlite" if k == 5 else "json/pickle"), type(e).__name__, str(e)[:120]), case)
-                continue
-            ctx.count("fmt_" + fmt)
-            if fmt in ("excel", "sqlite"):
-                diffs = deep_compare(net, n3, 1e-9, strict_dtype=False, only_elements=True)
-                if fmt == "excel":      # an empty cell is Excel's missing value: '' cannot be represented
-                    diffs = [d for d in diffs if not (d[1].startswith("value:") and d[2] in ("'' vs None", "'' vs nan"))]
-            else:
-                diffs = deep_compare(net, n3, 1e-14 if fmt != "pickle" else 0.0)
-            if diffs:
-                ctx.violation(classify(diffs, net, fmt), "%s round trip differs: %s" % (fmt, diffs[:4]), case)
-            elif not res_equal(clean, n3):
-                ctx.violation("spec", "runpp results differ after the %s round trip" % fmt, case)
+                ctx.count("fmt_" + fmt)
+                if fmt in ("excel", "sqlite"):
+                    diffs = deep_compare(net, n3, 1e-9, strict_dtype=False, only_elements=True)
+                    if fmt == "excel":      # an empty cell is Excel's missing value: '' cannot be represented
+                        diffs = [d for d in diffs if not (d[1].startswith("value:") and d[2] in ("'' vs None", "'' vs nan"))]
+                else:
+                    diffs = deep_compare(net, n3, 1e-14 if fmt != "pickle" else 0.0)
+                if diffs:
+                    ctx.violation(classify(diffs, net, fmt), "%s round trip differs: %s" % (fmt, diffs[:4]), case)
+                elif not res_equal(clean, n3):
+                    ctx.violation("spec", "runpp results differ after the %s round trip" % fmt, case)
     model = ctx.coq_eval("c20", "Base.QN C20.Model", terms, shard=70)
     for (case, c, d, src, back), m in zip(keep, model):
         ctx.corr_checked += 1
